@@ -121,3 +121,82 @@ func (w *world) guarded(name string, fn func() error) error {
 	os.Exit(0)
 	return wedgedErr{name + ": config.SaveConfig lock-order deadlock"}
 }
+
+// sessionLockSites: functions of the api package that take the session registry lock or a
+// session's own mutex. A goroutine parked in a mutex lock below one of them, the same one
+// in two dumps 5 s apart while no call into portbase has returned for 20 s, is a leaked or
+// cyclic lock in the session bookkeeping: requests carrying that cookie (and, once the
+// cleaner joins, every login) are never answered.
+var sessionLockSites = []string{"api.(*session).Expired", "api.(*session).Refresh", "api.checkSessionCookie", "api.createSession", "api.deleteSession",
+	"api.cleanSessions", "api.VerifCleanSessions", "api.VerifExpireSessions", "api.VerifSessionCount"}
+
+const stallLimit = 20 * time.Second
+
+// hangMonitor watches the whole child: when nothing has returned from portbase for
+// stallLimit it looks for the structural witness of a hang in the session bookkeeping.
+// Without that witness it stays silent (the process watchdog then yields "inconclusive").
+func (w *world) hangMonitor() {
+	last, since := w.progress.Load(), time.Now()
+	for {
+		time.Sleep(2 * time.Second)
+		cur := w.progress.Load()
+		if cur != last {
+			last, since = cur, time.Now()
+			continue
+		}
+		if time.Since(since) < stallLimit {
+			continue
+		}
+		park := func() map[string]string {
+			d := allStacks()
+			out := map[string]string{}
+			for _, fn := range sessionLockSites {
+				for id, blk := range blockedIn(d, fn) {
+					if _, ok := out[id]; !ok {
+						out[id] = fn + "\x00" + blk
+					}
+				}
+			}
+			return out
+		}
+		b1 := park()
+		if len(b1) == 0 {
+			since = time.Now() // nothing of ours: look again after another stallLimit
+			continue
+		}
+		time.Sleep(5 * time.Second)
+		if w.progress.Load() != cur {
+			last, since = w.progress.Load(), time.Now()
+			continue
+		}
+		b2 := park()
+		var site, stack string
+		n := 0
+		for id, v := range b2 {
+			if _, ok := b1[id]; ok {
+				n++
+				parts := strings.SplitN(v, "\x00", 2)
+				// prefer the innermost site (the session's own mutex) for the signature
+				if site == "" || strings.Contains(parts[0], "(*session)") {
+					site, stack = parts[0], parts[1]
+				}
+			}
+		}
+		if n == 0 {
+			since = time.Now()
+			continue
+		}
+		if !wedgeOnce.CompareAndSwap(false, true) {
+			return
+		}
+		w.b.Count("server_wedged", 1)
+		w.b.Violation("C12:server-hang:"+site,
+			fmt.Sprintf("no call into the API has returned for %s: %d goroutine(s) are parked on a lock of the session bookkeeping below %s, unchanged in two dumps; the session mutex / registry lock is never released again, so requests carrying that cookie (and the cleaner and new logins behind it) are never answered",
+				(stallLimit+5*time.Second), n, site),
+			map[string]any{"parked": trimTo(stack, 2500), "parked_goroutines": n, "replay": tableReplay{Mode: "expired-repeat", CredTag: "n/a"}})
+		w.b.Note("child stopped: hang in the session bookkeeping (%s)", site)
+		time.Sleep(300 * time.Millisecond)
+		w.b.Finish(w.dir)
+		os.Exit(0)
+	}
+}
